@@ -51,6 +51,39 @@ func ruleForwardedVariables(r *Run) {
 				}
 			}
 		}
+		// … and every supplied variable is forwarded: no further condition between the ok side
+		// and the copy (an explicit null is a value; dropping it makes the service apply the
+		// argument's default instead)
+		if good && lk.CommaOk {
+			for _, ref := range *lk.Referrers() {
+				ex, ok := ref.(*ssa.Extract)
+				if !ok || ex.Index != 1 {
+					continue
+				}
+				for _, r2 := range *ex.Referrers() {
+					iff, ok := r2.(*ssa.If)
+					if !ok {
+						continue
+					}
+					okSide := iff.Block().Succs[0]
+					loop := innermostLoop(mu.Block())
+					var header *ssa.BasicBlock
+					for b := range loop {
+						for _, p := range b.Preds {
+							if !loop[p] {
+								header = b
+							}
+						}
+					}
+					if header != nil {
+						all, _ := mustPassUntil(okSide, header, func(i ssa.Instruction) bool { return i == ssa.Instruction(mu) })
+						r.Check(all, "R13k.all", fnName(fn), "every supplied client variable is forwarded", r.P.pos(mu.Pos()),
+							"every path from `the client supplied it` to the next variable copies the value",
+							"a variable the client supplied is forwarded only under a further condition (e.g. only when it is not null): an explicit null is a value of its own — leaving it out makes the service fall back to the argument's default, so the answer differs from a single server's")
+					}
+				}
+			}
+		}
 		r.Check(good, rule, fnName(fn), "client variable forwarded only if supplied", r.P.pos(mu.Pos()),
 			"the variable is copied under the ok side of a comma-ok lookup in the request's variables",
 			"every name of the step's variable list is forwarded, present or not (absent ones as null): the sub-request's variables map then holds more than the stitched id, the `len(variables) == 1` gate of de-duplication never passes and the same entity is fetched once per list occurrence; absent variables also override downstream defaults with null")
